@@ -73,7 +73,8 @@ Definition impl_spend (t : tx) (i : nat) : string :=
   | Err => "ERR"
   | Panic => "PANIC"
   | Ok (RunOk j) => let st := istate j in
-                    "OK:" +++ show_items (stack st) +++ ";" +++ dec_of_N (N.of_nat (codesep st))
+                    "OK:" +++ show_items (stack st) +++ ";" +++ dec_of_N (N.of_nat (codesep st)) +++ ";"
+                    +++ (match split_last (stack st) with Some (_, top) => if cast_to_bool top then "T" else "F" | None => "F" end)
   | Ok (RunErr _) => "ERR"
   | Ok RunPanic => "PANIC"
   | Ok RunOutOfFuel => "FUEL"
@@ -88,7 +89,28 @@ Definition spec_expected := expected H_spec H160_spec sec1_decode_fast prim_veri
 
 (* outside the families the property prescribes no outcome, but whatever the transaction, the index and the scripts, the run
    ends with a stack or an error (C15_spend_total): anything but PANIC / ABORT matches *)
-Definition no_panic : string := "ERR~*;*".
+Definition no_panic : string := "ERR~*;*;*".
+(* rejected: an error, or no true element on top of the final stack *)
+Definition rejected : string := "ERR~*;*;F".
+
+(* A locking script of one of the three families, an unlocking script that is NOT push-only, and no data element of the
+   unlocking script is a valid signature for any key of the locking script (P2PKH: any pushed element hashing to the
+   committed hash): nothing the lock could accept was supplied, so the input must not count as spent. *)
+Definition pushed_data (ts : list tok) : list bytes :=
+  List.concat (map (fun t => match t with TPush _ d => [d] | TOp _ => [] end) ts).
+Definition no_signature_attack (wt : wtx) (i : nat) (amount : N) (lock unlock : list tok) : bool :=
+  match recognise lock, pushed_items unlock with
+  | Some (fam, _), None =>
+      let ds := pushed_data unlock in
+      let keys := match fam with
+                  | FP2PK pk => [pk]
+                  | FP2PKH h => filter (fun d => bytes_eqb (H160_spec d) h) ds
+                  | FMS _ ks => ks
+                  end in
+      let valid := sig_valid H_spec sec1_decode_fast prim_verify_fast wt i (script_code lock) amount in
+      negb (existsb (fun sg => existsb (fun pk => valid sg pk) keys) ds)
+  | _, _ => false
+  end.
 
 Definition spec_spend (t : tx) (i : nat) (es : list ext_entry) : string :=
   match nth_error es i, nth_error (inputs t) i with
@@ -96,15 +118,16 @@ Definition spec_spend (t : tx) (i : nat) (es : list ext_entry) : string :=
       match tokenize_spec lockb, tokenize_spec (to_bytes (unlocking inp)) with
       | TokOk lock, TokOk unlock =>
           match spec_expected (view_tx t) i amount lock unlock with
-          | (Accept, _) => "OK:01,;*"
+          | (Accept, _) => "OK:01,;*;T"
           | (Reject, true) => "ERR"
-          | (Reject, false) => "ERR~OK:,;*"
-          | (AcceptOrReject, true) => "ERR~OK:01,;*"
-          | (AcceptOrReject, false) => "ERR~OK:,;*~OK:01,;*"
+          | (Reject, false) => "ERR~OK:,;*;F"
+          | (AcceptOrReject, true) => "ERR~OK:01,;*;T"
+          | (AcceptOrReject, false) => "ERR~OK:,;*;F~OK:01,;*;T"
           | (Unspecified, _) =>
+              if no_signature_attack (view_tx t) i amount lock unlock then rejected else
               match expected_two H_spec sec1_decode_fast prim_verify_fast (view_tx t) i amount lock unlock with
-              | Accept => "OK:01,;*"
-              | Reject => "ERR~OK:,;*"
+              | Accept => "OK:01,;*;T"
+              | Reject => "ERR~OK:,;*;F"
               | _ => no_panic
               end
           end
